@@ -180,6 +180,7 @@ def probe_config(base, test, family, reload=False, include=False):
         sess.connect_slot('R', 0)
         sess.connect_slot('Q', 0)
         sess.connect_slot('S', S_UID)
+        sess.connect_slot('E', 0)          # a third party holding an eavesdropping match rule
     except B.BusError as e:
         stats['unrealisable'] += 1
         return out, stats
@@ -197,6 +198,8 @@ def probe_config(base, test, family, reload=False, include=False):
         ok &= expect_reply(sess, 'S', 'RequestName', [R.S('s.name'), R.U(0)])
         ok &= expect_reply(sess, 'R', 'AddMatch', [R.S("type='signal',interface='p.i'")])
         ok &= expect_reply(sess, 'Q', 'AddMatch', [R.S("type='signal',interface='p.i'")])
+    have_e = sess.uname.get('E') is not None and expect_reply(sess, 'E', 'AddMatch', [R.S("eavesdrop='true',type='method_call'")]) and \
+        expect_reply(sess, 'E', 'AddMatch', [R.S("eavesdrop='true',type='signal',path='/p'")])
     if not ok:
         stats['unrealisable'] += 1
         return out, stats
@@ -218,13 +221,15 @@ def probe_config(base, test, family, reload=False, include=False):
             stats['config-rejected'] = 1
             return out, stats
         stats['reloaded'] = 1
-    for l in ('R', 'Q', 'S'):
+    for l in ('R', 'Q', 'S', 'E'):
         sess.take(l)
     peers = {'R': P.Peer(primary={'a.b', 'a.b.c', sess.uname['R'].decode()}, queued={'q.name'}),
              'Q': P.Peer(primary={'q.name', 'a.bc', sess.uname['Q'].decode()}),
              'S': P.Peer(primary={'s.name', sess.uname['S'].decode()}),
              'bus': P.Peer(is_bus=True)}
-    uid = {'R': 0, 'Q': 0, 'S': S_UID}
+    if have_e:
+        peers['E'] = P.Peer(primary={sess.uname['E'].decode()})
+    uid = {'R': 0, 'Q': 0, 'S': S_UID, 'E': 0}
     gids = {0: _groups_of(0), S_UID: _groups_of(S_UID)}
     tok = [0]
 
@@ -266,6 +271,27 @@ def probe_config(base, test, family, reload=False, include=False):
                 errs = [o for o in got[sender] if o.kind == R.MT_ERROR and o.rserial == msg.serial]
                 if len(errs) != 1 or errs[0].errname != b'org.freedesktop.DBus.Error.AccessDenied':
                     out.append(Violation('denied-call-error', desc.split(' ')[0], '%s: denied method call produced %r at its sender' % (desc, errs), None))
+        # the eavesdropper: a copy of a unicast message that is delivered to its addressee, exactly when the sender may send
+        # it to the eavesdropper and the eavesdropper's receive rules allow it AS AN EAVESDROPPER (allow rules need eavesdrop="true")
+        if have_e:
+            ebox = sess.take('E')
+            ecopy = any(o.body and o.body[0][1] == token and o.sender == sess.uname[sender] for o in ebox)
+            if pm.has_destination and len(receivers) == 1 and pm.mtype in (1, 4) and not fds and sender != 'E':
+                rcv0 = receivers[0]
+                sd0_ = P.can_send(rules, uid[sender], gids[uid[sender]], pm, peers[rcv0])
+                rd0_ = P.can_receive(rules, uid[rcv0], gids[uid[rcv0]], pm, peers[sender])
+                sde = P.can_send(rules, uid[sender], gids[uid[sender]], pm, peers['E'])
+                rde = P.can_receive(rules, 0, gids[0], pm, peers[sender], eavesdropping=True)
+                if any(x is P.UNSPEC for x in (sd0_, rd0_, sde, rde)):
+                    stats['unspec'] += 1
+                else:
+                    wante = bool(sd0_ and rd0_ and sde and rde)
+                    stats['eavesdrop-' + ('allowed' if wante else 'denied')] = stats.get('eavesdrop-' + ('allowed' if wante else 'denied'), 0) + 1
+                    if ecopy != wante:
+                        attrs = '+'.join(sorted({k for r in test for k in r if k not in ('action', 'context')}))
+                        out.append(Violation('denied-but-delivered' if ecopy else 'allowed-but-not-delivered', 'eavesdropper:%s:%s' % (desc.split(' ')[0], attrs),
+                                             '%s: the eavesdropping third party %s a copy; documented evaluation: delivery to the addressee %s, send to the eavesdropper %s, eavesdropper may receive %s; test rules %r' %
+                                             (desc, 'received' if ecopy else 'did not receive', bool(sd0_ and rd0_), sde, rde, test), None))
         # nobody else may see it
         for l in ('R', 'Q'):
             if l not in receivers and any(o.body and o.body[0][1] == token and o.sender == sess.uname[sender] for o in got[l]):
